@@ -3243,3 +3243,9 @@ LEVEL_NOTE = ('Trusted: Lean kernel; extract.py; the correspondence harness and 
 from props import c15x as _ext  # noqa: E402  pylint: disable=wrong-import-position
 _ext.EXTRA_ROOTS = ['Drv.C15X']
 fw.attach_extension(globals(), _ext)
+
+
+# extension: the call-back forms of arrayIndexOf / arrayLastIndexOf / arraySort (CPython binary insertion sort modelled exactly below 64 elements) (DESIGN 13.9)
+from props import c15y  # noqa: E402  pylint: disable=wrong-import-position
+c15y.EXTRA_ROOTS = ['Drv.C15Y']
+fw.attach_extension(globals(), c15y)
